@@ -214,9 +214,44 @@ struct Gen
 };
 
 // --------------------------------------------------------------- C06 ------
+// enumerated stop windows (thorough tier): index -> (go kind, window); W0..W3 and W4(k) for k = 1..200,
+// search held in the window until the reader has consumed the stop
+Script gen_c06_sweep(uint64_t index)
+{
+    Script s;
+    s.cfg.prop = "C06";
+    s.cfg.run_seed = index;
+    s.cfg.node_cost_ns = 1000;
+    s.cfg.policy = POL_ROUND_ROBIN;
+    s.cfg.node_cap = 300000;
+    static const char* gos[] = {"go infinite", "go depth 30", "go movetime 10000000", "go wtime 10000000 btime 10000000"};
+    static const char* poss[] = {"position startpos", "position fen k7/8/1r1q1r1q/b1q1n1q1/1Q1N1Q1B/Q1R1Q1R1/8/7K w - - 0 1", "position fen r3k2r/p1ppqpb1/bn2pnp1/3PN3/1p2P3/2N2Q1p/PPPBBPPP/R3K2R w KQkq - 0 1"};
+    uint64_t gk = index % 4, w = (index / 4) % 204, pk = (index / (4 * 204)) % 3;
+    s.ops.push_back(send(poss[pk]));
+    s.ops.push_back(send(gos[gk]));
+    Op st = send("stop");
+    st.hold = true;
+    if (w == 0) st.trig = TRIG_NONE;
+    else if (w <= 3)
+    {
+        st.trig = TRIG_POINT;
+        st.point = w == 1 ? PT_GO_ENTRY : (w == 2 ? PT_GO_AFTER_INIT : PT_GO_AFTER_RESET);
+        st.k = 1;
+    }
+    else
+    {
+        st.trig = TRIG_POINT;
+        st.point = PT_NODE;
+        st.k = int64_t(w - 3);
+    }
+    s.ops.push_back(st);
+    s.ops.push_back(simple(OP_AWAIT_BEST));
+    return s;
+}
+
 Script gen_c06(uint64_t seed, const std::string& tier, Rng& r)
 {
-    (void)tier;
+    if (tier == "sweep") return gen_c06_sweep(seed);
     Script s;
     s.cfg.run_seed = seed;
     Gen g(r, s);
